@@ -101,9 +101,7 @@ def writer_key_table(facts, writer, key_enum):
     for ev in H.flat_write_events(facts, writer):
         if ev['kind'] != 'fmt':
             continue
-        if ev['fn'] not in inits_by_fn:
-            inits_by_fn[ev['fn']] = H.binding_inits(facts.hir[ev['fn']])
-        inits = inits_by_fn[ev['fn']]
+        inits = H.event_inits(facts, ev, inits_by_fn)
         args = ev['args']
         pieces = ev['pieces']
         cond_roots = set()
@@ -306,7 +304,7 @@ def check_lossless(facts, out):
         for ev in H.flat_write_events(facts, writer):
             if ev['kind'] != 'fmt':
                 continue
-            inits = H.binding_inits(facts.hir[ev['fn']])
+            inits = H.event_inits(facts, ev)
             for a in ev['args']:
                 nvals += 1
                 for what, ln in lossy_ops(a, inits):
@@ -515,7 +513,7 @@ def check_events(facts, out):
     for ev in H.flat_write_events(facts, writer):
         if ev['kind'] != 'fmt' or not ev['args']:
             continue
-        inits = H.binding_inits(facts.hir[ev['fn']])
+        inits = H.event_inits(facts, ev)
         a0 = H.peel(ev['args'][0])
         if a0.get('k') == 'local' and len(inits.get(a0['name'], [])) == 1:
             a0 = H.peel(inits[a0['name']][0])
